@@ -18,7 +18,7 @@ RULE = ('cases: seeded peers (server role, client role via listen/accept, SSH-1 
         'names; distinct by hash of (role, renderings, segmentation modes, the lists).')
 ASSUMPTIONS = ['c2s and s2c lists are generated equal so "the cipher list" is unambiguous',
                'names contain no whitespace or comma (RFC 4251 section 6); non-UTF-8 bytes are compared after UTF-8 decoding with replacement',
-               'segmentation inside banner-phase text lines is excluded here (see DESIGN.md section 4, get_banner finding); it is exercised by C16/C09']
+               'banner-phase text lines are segmented at line boundaries or inside lines (seeded)']
 
 TEXT_OPTS = [['-n'], [], ['-b'], ['-v'], ['-n', '-b'], ['-n', '-v'], ['-b', '-v']]
 JSON_OPTS = [['-j'], ['-jj']]
